@@ -320,6 +320,8 @@ def e2e_case(draw):
     mode = draw(st.sampled_from([[], [], ["--noopt"], ["--nodebump", "--noopt"], ["--assign-only"]]))
     hyd = "all" if mode == ["--assign-only"] else None
     desc = draw(e2e.structure(max_chains=2, nmax=5, contact=False, variants=0.3, hyd=hyd))
+    if draw(st.integers(0, 3)) == 0:
+        e2e.add_hidden_ends(draw, desc)  # two molecules under one chain id, no TER
     ff = draw(st.sampled_from(strat.FFS))
     opts = list(mode)
     if ff == "PARSE" and not mode:
